@@ -45,6 +45,9 @@ type GenginePool struct {
 	max int64
 
 	getEngineLock sync.RWMutex //just one can get this lock
+
+	//guards the rule set published to the engine instances (rbSlice[i].Kc)
+	kcLock sync.RWMutex
 }
 
 type gengineWrapper struct {
@@ -220,9 +223,11 @@ func (gp *GenginePool) UpdatePooledRules(ruleStr string) error {
 	}
 
 	gp.ruleBuilder = rbi
+	gp.kcLock.Lock()
 	for i := 0; i < int(gp.max); i++ {
 		gp.rbSlice[i].Kc = gp.ruleBuilder.Kc
 	}
+	gp.kcLock.Unlock()
 
 	gp.clear = false
 	return nil
@@ -334,8 +339,12 @@ func updateIncremental(kc *base.KnowledgeContext, rb *builder.RuleBuilder) {
 		}
 	}
 
-	rb.Kc.RuleEntities = newRuleEntities
-	rb.Kc.SortRules = newSortRules
+	//publish a new rule set, requests that are running keep the one they started with
+	rb.Kc = &base.KnowledgeContext{
+		RuleEntities:      newRuleEntities,
+		SortRules:         newSortRules,
+		SortRulesIndexMap: rb.Kc.SortRulesIndexMap,
+	}
 }
 
 //sync method
@@ -362,9 +371,11 @@ func (gp *GenginePool) UpdatePooledRulesIncremental(ruleStr string) error {
 	updateIncremental(kci, gp.ruleBuilder)
 
 	//update instance
+	gp.kcLock.Lock()
 	for i := 0; i < int(gp.max); i++ {
 		gp.rbSlice[i].Kc = gp.ruleBuilder.Kc
 	}
+	gp.kcLock.Unlock()
 
 	gp.clear = false
 	return nil
@@ -390,9 +401,12 @@ func (gp *GenginePool) ClearPoolRules() {
 	defer gp.updateLock.Unlock()
 	gp.ruleBuilder = nil
 	gp.clear = true
+	//publish an empty rule set, requests that are running keep the one they started with
+	gp.kcLock.Lock()
 	for i := 0; i < int(gp.max); i++ {
-		gp.rbSlice[i].Kc.ClearRules()
+		gp.rbSlice[i].Kc = base.NewKnowledgeContext()
 	}
+	gp.kcLock.Unlock()
 }
 
 //remove rules
@@ -408,9 +422,11 @@ func (gp *GenginePool) RemoveRules(ruleNames []string) error {
 		return e
 	}
 
+	gp.kcLock.Lock()
 	for _, rb := range gp.rbSlice {
 		_ = rb.RemoveRules(ruleNames)
 	}
+	gp.kcLock.Unlock()
 	return nil
 }
 
@@ -524,6 +540,15 @@ func (gp *GenginePool) GetRulesNumber() int {
 	return len(gp.ruleBuilder.Kc.RuleEntities)
 }
 
+//a request executes the rule set that is installed when it starts, whatever is updated meanwhile:
+//it gets a rule builder of its own holding that rule set and the data context of its engine instance
+func (gp *GenginePool) requestRuleBuilder(tag int64) *builder.RuleBuilder {
+	gp.kcLock.RLock()
+	defer gp.kcLock.RUnlock()
+	rb := gp.rbSlice[tag]
+	return &builder.RuleBuilder{Kc: rb.Kc, Dc: rb.Dc}
+}
+
 func (gp *GenginePool) prepare(reqName string, req interface{}, respName string, resp interface{}) (*gengineWrapper, error) {
 	//get gengine resource
 	gw, e := gp.getGengine()
@@ -531,7 +556,7 @@ func (gp *GenginePool) prepare(reqName string, req interface{}, respName string,
 		return nil, e
 	}
 
-	gw.rulebuilder = gp.rbSlice[gw.tag]
+	gw.rulebuilder = gp.requestRuleBuilder(gw.tag)
 
 	if reqName != "" && req != nil {
 		gw.rulebuilder.Dc.Add(reqName, req)
@@ -550,7 +575,7 @@ func (gp *GenginePool) prepareWithMultiInput(data map[string]interface{}) (*geng
 		return nil, e
 	}
 
-	gw.rulebuilder = gp.rbSlice[gw.tag]
+	gw.rulebuilder = gp.requestRuleBuilder(gw.tag)
 
 	for k, v := range data {
 		//user should not inject "" string or nil value
